@@ -4,7 +4,7 @@ use ark_crypto_primitives::sponge::{
     poseidon::{PoseidonConfig, PoseidonSponge},
     Absorb, CryptographicSponge, FieldElementSize,
 };
-use ark_ff::{One, PrimeField, UniformRand, Zero};
+use ark_ff::PrimeField;
 use ark_std::rand::{RngCore, SeedableRng};
 use blake2::{Blake2s256, Digest};
 use rand_chacha::ChaCha20Rng;
